@@ -51,8 +51,12 @@ claim('C01',
       'spec/sys/OMModel.tla gives the exact denotation of a model (NdIndex composition of src_indices chains, unit maps, affine '
       'components, one ordered pass for feed-forward models, fixpoint/linear-system characterisation for feedback, TotalAll, '
       'Block, ScaledBlock). Seeded generated models are run under several (mode, linear solver, assembled jacobian type, return '
-      'format, driver scaling) configurations and TLC (OMJudge.tla) judges every observed total-derivative block exactly.',
-      SYS_NOTE, 'TLA+ system specification as exact oracle; TLC validates observations of real runs on generated models', '5.7, 6/C01')
+      'format, driver scaling, total coloring, rhs_checking cache) configurations and TLC (OMJudge.tla) judges every observed '
+      'total-derivative block exactly; a second family forces three-level solver stacks (assembled jacobian below a Krylov parent). '
+      'The cache of linear solutions (LinearRHSChecker) is a separate state machine (mech/RhsCache.tla: AnswerCorrect, CacheSound; '
+      'the no-clear variant is refuted) bound to the code by trace validation of the real object (RhsCacheTrace.tla).',
+      SYS_NOTE, 'TLA+ system specification as exact oracle; TLC validates observations of real runs on generated models; '
+      'model checking + trace validation of the linear-solution cache', '5.7, 6/C01')
 
 claim('C04',
       'TLC evaluates InVal (fac * source[ConnPos(chain)] + off) of OMModel.tla on the OBSERVED outputs of generated hierarchies '
@@ -118,9 +122,13 @@ claim('C07',
       '(NdIndex positions of the src_indices chain + unit factor); SetVal/GetVal act on the store of sources; phases leave it unchanged. '
       'TLC checks RoundTrip, OthersUnchanged, PhaseNeutral and generates random write sequences of depth 6; each is replayed on a real '
       'Problem under several phase schedules (before final_setup, after it, after run_model, interleaved) with all views compared after '
-      'every action.',
-      'One fixed model (6 addressable names, 9 index forms, 4 unit arguments); writes with repeated positions are outside the property.',
-      'TLA+ store semantics + TLC (exhaustive small depth + simulation) + behaviour replay under phase schedules', '6/C07, 16')
+      'every action.  Second family (spec/sys/OMSetGetTrace.tla): histories of set_val (outputs, absolute inputs, promoted names at '
+      'every level, indices, scalar broadcast) / final_setup / run_model on generated hierarchical models are validated event by event '
+      'by TLC with all views compared (positions of every view computed by NdIndex in the spec).',
+      'Family 1: one fixed model (6 addressable names, 9 index forms, 4 unit arguments). Family 2: feed-forward generated models, default '
+      'solvers, no units argument; writes that give different values to the same source entry are not generated.',
+      'TLA+ store semantics + TLC (exhaustive small depth + simulation) + behaviour replay under phase schedules; trace validation of '
+      'set/get/run histories on generated models', '6/C07, 16')
 
 claim('C10',
       'spec/mech/LineSearch.tla (exact rationals): one Newton iteration filtered by BoundsEnforceLS / ArmijoGoldsteinLS with vector, scalar or '
